@@ -23,7 +23,7 @@ PANICKY_RE = re.compile(
     r"|^std::iter::Iterator::(step_by)$|^std::char::(from_digit)$|^core::char::(from_digit)$|^core::char::methods::(to_digit|is_digit)$"
     r"|^core::num::(pow|abs|div_euclid|rem_euclid|next_power_of_two|ilog|ilog2|ilog10|isqrt|div_ceil|next_multiple_of|strict_\w+)$"
     r"|^std::thread::|^std::sync::(Mutex|RwLock)::|^std::alloc::(handle_alloc_error)$"
-    r"|^std::mem::(zeroed|uninitialized)$|::unwrap$|::expect$|^std::time::Instant::|^std::time::Duration::(from_secs_f\d+|mul_f\d+|div_f\d+)$")
+    r"|^std::mem::(zeroed|uninitialized|transmute)$|_unchecked(_mut)?$|::unwrap$|::expect$|^std::time::Instant::|^std::time::Duration::(from_secs_f\d+|mul_f\d+|div_f\d+)$")
 # #[track_caller] callees that only forward the location / cannot panic by themselves
 BENIGN_TRACK_CALLER = {"std::ops::FromResidual::from_residual", "std::convert::Into::into", "std::convert::From::from",
                        "log::__private_api::loc", "std::panic::Location::caller", "std::convert::TryInto::try_into",
@@ -660,6 +660,21 @@ def _descent_witness(crate, body, cs, callee, comp):
                 ok_src = True
         if ok_src:
             return True, "reader descent: forwards the caller's Some(reader) (no reader -> no recursion)"
+        # helper that received the reader itself: every caller inside the cycle must be the Start arm of the event loop
+        if any(st[0] == "arg" and "quick_xml::Reader<" in body.local_ty(st[1]).get("s", "") and "Option<" not in body.local_ty(st[1]).get("s", "") for st in mir.subterms(a0)):
+            callers = []
+            for n2 in comp:
+                b2 = crate.bodies[n2]
+                for c2 in b2.calls():
+                    if c2.node["callee"].get("path") == body.name or c2.node["callee"].get("resolved") == body.name:
+                        callers.append((b2, c2))
+            good = bool(callers)
+            for (b2, c2) in callers:
+                rcs = [x for x in b2.calls() if method(x.node) in READER_METHODS]
+                if not rcs or not b2.dominates(rcs[0].bb, c2.bb) or _event_arm_of(b2, rcs[0], c2) != "Start":
+                    good = False
+            if good:
+                return True, "reader descent: this helper is only entered from the Start arm of the event loop, after an event was consumed"
         return False, "recursive call with a reader that is not the caller's Some(reader) payload: %s" % term_s(a0)
     # (c) bounded renaming recursion: guard on a Type constant, type forwarded unchanged,
     #     new name makes the guard of this site false in the callee
